@@ -146,9 +146,9 @@ type vf19Conn struct {
 	cur      []byte      // rest of a partially consumed chunk
 	curFin   int         // terminal event attached to cur (-1: none)
 	curErr   error
-	arrived  []byte      // all chunk bytes that have arrived
-	consumed []byte      // bytes Read has handed to the relay
-	ended    bool        // a terminal read event was consumed (sticky)
+	arrived  []byte // all chunk bytes that have arrived
+	consumed []byte // bytes Read has handed to the relay
+	ended    bool   // a terminal read event was consumed (sticky)
 	endErr   error
 	maxRead  int // 0: unlimited
 
